@@ -149,7 +149,11 @@ def main():
   rep = vlib.Report(PROP, "proof")
   from translate import retgen
   rgen, _names = retgen.emit(vlib.GEN)
-  info = vlib.build_obligations(PROP, gen_files=[rgen], extra_files=[os.path.join(vlib.COQ, "theories", "Link", "RetLink.v")])
+  from translate import qbitsgen, relucallgen
+  qgen = qbitsgen.emit(vlib.GEN)
+  cgen = relucallgen.emit(vlib.GEN)
+  LK = os.path.join(vlib.COQ, "theories", "Link")
+  info = vlib.build_obligations(PROP, gen_files=[rgen, qgen, cgen], extra_files=[os.path.join(LK, "RetLink.v"), os.path.join(LK, "QBitsLink.v"), os.path.join(LK, "ReluCallLink.v")])
   errs = rep.obligations(info, "python3 tools/translate/retgen.py coq/gen && coqc coq/gen/RetGen.v && coqc coq/theories/Link/RetLink.v && coqc coq/theories/Properties/C06.v")
   for e in errs:
     rep.violation("obligation-" + os.path.basename(e["file"]), "proof obligation no longer checks: " + e["error"][-400:],
